@@ -3,6 +3,7 @@ package main
 import (
 	"database/sql"
 	"fmt"
+	"os"
 	"strings"
 	"sync"
 	"time"
@@ -196,6 +197,20 @@ func c14(args []string) int {
 		{Name: "merged/min3-4k/wide", Cfg: cfgs["min3-4k"], Alphabet: aWide, Depth: d(8, 12), Merge: true, MaxRuns: int64(d(3000, 150000))},
 		{Name: "merged/chunk1/wide", Cfg: cfgs["chunk1"], Alphabet: aWide, Depth: d(8, 12), Merge: true, MaxRuns: int64(d(2000, 100000))},
 	}
+	// start-up probe (c14startup.go): EnsureExists against an application creating its database at every instant
+	prep := ev.NewReporter("C14")
+	pprobs, pn, pout, perr := c14StartupProbe()
+	if perr != nil {
+		fmt.Fprintln(os.Stderr, "HARNESS ERROR (no verdict): start-up probe:", perr)
+		return 2
+	}
+	for _, p := range pprobs {
+		prep.Report(&ev.Violation{Kind: p.Kind, Signature: p.Kind + "|" + strings.SplitN(p.Detail, ":", 2)[0], Detail: map[string]any{"problem": p.String()}})
+	}
+	fmt.Printf("[C14] start-up probe: cases=%d outcome classes=%d problems=%d\n", pn, len(pout), len(pprobs))
+	hc.rep = prep
+	hc.ExtraCoverage = map[string]any{"startup_probe": map[string]any{"cases": pn, "outcomes": pout,
+		"rule": fmt.Sprintf("DB.EnsureExists (restore-if-db-not-exists) with the application creating its database before the probe / inside the K-th storage call of the probe (K=1..%d) / never, against an empty replica and a replica holding another database; with an EMPTY replica a database the application created must still be the application's afterwards (rows, WAL mode); with a replica that holds a database the outcome is counted, not judged", c14ProbeCalls)}}
 	return hc.RunLayers(layers, ev.Budget(100*time.Second, 40*time.Minute),
 		[]string{
 			"the control run replays exactly the application operations of the history on a database litestream never opens; results are cached per (configuration, projection)",
